@@ -5,6 +5,7 @@ import ZChain.Model.Faucet
 
 `conf <pour> <maxPour> <periodic> <global> <indivResetNs> <globalResetNs> <faucetBalance|-> <client:balance>*` → `ok`
 `pour <client> <value> <now>` | `refill <client> <value> <now>` → `ok <amount>` | `err <class>` | `rejected`
+`settings <client> <pour> <maxPour> <periodic> <global> <indivResetNs> <globalResetNs> <now>` → `ok 0` | `err <class>`  (owner = client 7)
 `dump` → `g <used> <start|-> f <faucet|-> u <client>:<used>:<start>* a <client>:<balance>*`  (ascending client) -/
 namespace ZChain.Drv.C17
 open ZChain ZChain.Faucet
@@ -57,6 +58,14 @@ def step (st : Option St) (ws : List String) : Option St × String :=
   | ["refill", c, v, now] => match st, c.toNat?, F64Line.u64? v, F64Line.i64? now with
     | some st, some c, some v, some now => if c < 8 ∧ v ≤ 4000000000000000000 then showRes st c (refill st c v now) else (some st, "bad-op")
     | st, _, _, _ => (st, "bad-op")
+  | ["settings", c, p, mp, per, gl, ir, gr, now] =>
+    match st, c.toNat?, F64Line.u64? p, F64Line.u64? mp, F64Line.u64? per, F64Line.u64? gl, F64Line.i64? ir, F64Line.i64? gr, F64Line.i64? now with
+    | some st, some c, some p, some mp, some per, some gl, some ir, some gr, some now =>
+      -- amounts travel as decimal ZCN strings: below 10^15 units they parse back exactly
+      if c < 8 ∧ p < 1000000000000000 ∧ mp < 1000000000000000 ∧ per < 1000000000000000 ∧ gl < 1000000000000000 ∧ 0 ≤ ir ∧ 0 ≤ gr then
+        showRes st c (updateSettings st c ⟨p, mp, per, gl, ir, gr⟩ now)
+      else (some st, "bad-op")
+    | st, _, _, _, _, _, _, _, _ => (st, "bad-op")
   | ["dump"] => match st with
     | some s => (st, showSt s)
     | none => (st, "bad-op")
